@@ -997,6 +997,9 @@ fn run_case(line: &str) -> String {
         "VAL" => run_val(f[2]),
         #[cfg(feature = "serde")]
         "SERDEN" => serde_cases::node_case(&unhex(f[2])),
+        // several strings deserialized one after the other in the same thread: each on its own
+        #[cfg(feature = "serde")]
+        "SERDEN2" => f[2..].iter().map(|h| serde_cases::node_case(&unhex(h))).collect::<Vec<_>>().join(" ;; "),
         #[cfg(feature = "serde")]
         "SERDEC" => serde_cases::ctx_case(f.get(2).copied().unwrap_or("")),
         k => panic!("unknown case kind {}", k),
